@@ -527,6 +527,10 @@ func writtenPrefixFor(mount string) string {
 }
 
 func stackCase(c *vlib.Cases, engine, base string, preserve bool, routePrefix, tail string, absForm bool, s *stk, b, decoy *rawBackend) {
+	stackCaseH(c, engine, base, preserve, routePrefix, tail, absForm, false, s, b, decoy)
+}
+
+func stackCaseH(c *vlib.Cases, engine, base string, preserve bool, routePrefix, tail string, absForm, hostileHost bool, s *stk, b, decoy *rawBackend) {
 	target := routePrefix + tail
 	hostHdr := "olla.test"
 	if absForm {
@@ -534,8 +538,13 @@ func stackCase(c *vlib.Cases, engine, base string, preserve bool, routePrefix, t
 		hostHdr = decoy.addr
 	}
 	target = strings.ReplaceAll(target, "DECOY", decoy.addr)
+	if hostileHost {
+		hostHdr = decoy.addr
+	}
 	body := `{"input":"hi"}`
-	req := fmt.Sprintf("POST %s HTTP/1.1\r\nHost: %s\r\nContent-Type: application/json\r\nContent-Length: %d\r\n\r\n%s", target, hostHdr, len(body), body)
+	// headers other proxies honour when rebuilding a target; olla must not
+	hostile := fmt.Sprintf("X-Forwarded-Host: %s\r\nForwarded: host=%s;proto=http\r\nX-Original-URL: /admin/secret\r\nX-Rewrite-URL: /admin/secret\r\nX-Forwarded-Prefix: /../..\r\n", decoy.addr, decoy.addr)
+	req := fmt.Sprintf("POST %s HTTP/1.1\r\nHost: %s\r\n%sContent-Type: application/json\r\nContent-Length: %d\r\n\r\n%s", target, hostHdr, hostile, len(body), body)
 	b.take()
 	before := atomic.LoadInt64(&decoy.conns)
 	status, err := rawDo(s.addr, req)
@@ -576,6 +585,10 @@ func stackPart(c *vlib.Cases, r *vlib.Rng, thorough bool) {
 				c.Emit(map[string]any{"kind": "stack-error", "engine": engine, "impl": map[string]any{"err": err.Error()}})
 				continue
 			}
+			// first (a failed dial marks the only endpoint unhealthy): Host names the decoy
+			stackCaseH(c, engine, cf.base, cf.preserve, "/olla/proxy/", "v1/embeddings?h=1", false, true, s, b, decoy)
+			stackCaseH(c, engine, cf.base, cf.preserve, "/olla/openai/", "v1/embeddings", false, true, s, b, decoy)
+			stackCase(c, engine, cf.base, cf.preserve, "/olla/proxy/", "v1/x?a=1", true, s, b, decoy)
 			for i, t := range tails {
 				rp := "/olla/proxy/"
 				if i%3 == 1 {
